@@ -694,25 +694,24 @@ def build (gens : List PS) : Except Err BuildResult := do
             unappended := unappended ++ [lighting]
     return ⟨st.legs, st.dependents, unappended, tags, true⟩
 
-/-- `MorphFactory.is_eq(legs, generators)` -/
+/-- `MorphFactory.is_eq(legs, generators)`: every generator is tested against a
+fresh copy of the stored legs; only `DependentException` means membership -/
 def isEq (legs : List (List PS)) (gens : List PS) : Bool := Id.run do
-  let mut st : MF := { legs := legs }
   for g in gens do
-    let (r, st') := runPipeline st g
-    st := st'
+    let st : MF := { legs := legs }
+    let (r, _) := runPipeline st g
     match r with
-    | .error .appended => return false
-    | _ => pure ()
+    | .error .dependent => pure ()
+    | .error _ => return false
+    | .ok () => pure ()   -- unreachable: the pipeline always raises
   return true
 
-/-- `MorphFactory.select_dependents(legs, generators)` -/
+/-- `MorphFactory.select_dependents(legs, generators)` (check mode) -/
 def selectDependents (legs : List (List PS)) (gens : List PS) : List PS := Id.run do
-  let mut st : MF := { legs := legs, isCheck := true }
   let mut deps : List PS := []
   for g in gens do
-    st := { st with legs := legs }
-    let (r, st') := runPipeline st g
-    st := st'
+    let st : MF := { legs := legs, isCheck := true }
+    let (r, _) := runPipeline st g
     match r with
     | .error .dependent => deps := deps ++ [g]
     | _ => pure ()
